@@ -2,7 +2,7 @@ SPECIFICATION Spec
 VIEW view
 CONSTANTS
   Mode = "randtree"
-  LeafSet = "rich"
+  LeafSet = "rich3"
   Depth = 3
   ParenStyles = {"min", "full", "red"}
   SpellNames = {"s1", "s2", "s3", "s4"}
@@ -10,6 +10,7 @@ CONSTANTS
   Alpha = "A"
   MaxLen = 0
   TailLen = 0
+  DeepReps = {}
 INVARIANT NotPropagationPreservesMeaning
 INVARIANT AtMostOneTopNot
 INVARIANT RenderIsWellFormed
